@@ -39,7 +39,8 @@ def _zero_diag_mats(n, bitsA, bitsB):
 
 
 def check(run, driver):
-    from causationentropy.core import stats
+    from common import ModuleEntryPoints
+    stats = ModuleEntryPoints("causationentropy.core.stats")
 
     run.rule = (
         "pairs of binary zero-diagonal matrices: exhaustive for n<=3, random up to n=12 (int64 and float64); "
@@ -71,12 +72,15 @@ def check(run, driver):
         np.fill_diagonal(B, 0)
         if run.rng.random() < 0.5:
             A, B = A.astype(np.float64), B.astype(np.float64)
+        # the same matrices in other storage layouts (column-major copy, transposed view of the transpose, strided view), independently for A and B
+        lay = lambda M_, t: [M_, np.asfortranarray(M_), np.ascontiguousarray(M_.T).T, np.repeat(np.repeat(M_, 2, axis=0), 2, axis=1)[::2, ::2]][t]
+        A, B = lay(A, int(run.rng.integers(0, 4))), lay(B, int(run.rng.integers(0, 4)))
         cases.append(("random-n<=12", A, B))
 
     reqs, impl = [], []
     for suite, A, B in cases:
         A0, B0 = A.copy(), B.copy()
-        tpr, fpr = stats.Compute_TPR_FPR(A, B)
+        tpr, fpr = stats.Compute_TPR_FPR(A, B)      # (A, B keep their storage layout; A0, B0 are C-ordered copies of the same matrices)
         if not (np.array_equal(A, A0) and np.array_equal(B, B0)):
             run.prop_fail("argument modified", {"A": A0, "B": B0})
         impl.append((float(tpr), float(fpr)))
